@@ -5,6 +5,7 @@ import (
 	"go/constant"
 	"go/token"
 	"go/types"
+	"math/big"
 	"reflect"
 	"sort"
 	"strings"
@@ -29,7 +30,7 @@ import (
 func init() {
 	Register(&Prop{
 		ID:   "C27",
-		Expl: "Decides on SSA, for every return / call site / field of the anchored functions: (R1) Setting.GetRate and Setting.GetDefaultRate return the stored rate when the store lookup succeeded, fall back (to GetDefaultRate resp. the built-in table indexed [asset][operation]) only on edges on which the lookup error is ErrRateNotFound, never return (nil,nil) and never swallow an error; the store builds its key with one format constant and the argument sequence (peer string, AssetType, OperationType) in SetRate(Put)/GetRate(Get)/DeleteRate(Delete), uses one bucket constant, one default-peer constant for SetDefaultRate/GetDefaultRate, and one value verb for encode/decode; Setting.Compute is GetRate(peer,asset,op) followed by PPM.Compute(amount). (R2) PPM.Compute returns exactly int64(amount)*ppm/1_000_000 with one integer multiplication and one integer (truncating) division. (R3) every store to the Premium field of an agreement message comes from Setting.Compute; every Setting.Compute call site passes an (asset, operation) constant pair that matches the message direction and the dominating Liquid/Bitcoin test, the swap's peer and the swap amount; the advertised rates follow one (asset,operation) pair end to end: constants at the PeerGuard.PremiumRate call -> NewPeerCapability parameter -> capability field -> GetPremiumRate arm -> snapshot field -> JSON name; peerGuard.PremiumRate resolves through Setting.GetRate(peer,asset,op) and departs from it only on the nil/error edges; both mains hand the same premium.Setting value to the swap services and to peer-sync, and no other production code writes those slots.",
+		Expl: "Decides on SSA, for every return / call site / field of the anchored functions: (R1) Setting.GetRate and Setting.GetDefaultRate return the stored rate when the store lookup succeeded, fall back (to GetDefaultRate resp. the built-in table indexed [asset][operation]) only on edges on which the lookup error is ErrRateNotFound, never return (nil,nil) and never swallow an error; the store builds its key with one format constant and the argument sequence (peer string, AssetType, OperationType) in SetRate(Put)/GetRate(Get)/DeleteRate(Delete), uses one bucket constant, one default-peer constant for SetDefaultRate/GetDefaultRate, and one value verb for encode/decode; Setting.Compute is GetRate(peer,asset,op) followed by PPM.Compute(amount). (R2) the arithmetic of PPM.Compute, read as an expression over the mathematical integers from native int64 operators or the math/big vocabulary (NewInt, Set*, Mul, Quo, Div, Rem, Mod, Add, Sub, Neg, QuoRem, DivMod, Int64; big objects replayed in program order), is (amount*ppm) quo 1_000_000 with a quotient that truncates toward zero; an expression that differs from it on a concrete witness (first: amount=123457, rate=-1500) is reported with that witness. (R3) every store to the Premium field of an agreement message comes from Setting.Compute; every Setting.Compute call site passes an (asset, operation) constant pair that matches the message direction and the dominating Liquid/Bitcoin test, the swap's peer and the swap amount; the advertised rates follow one (asset,operation) pair end to end: constants at the PeerGuard.PremiumRate call -> NewPeerCapability parameter -> capability field -> GetPremiumRate arm -> snapshot field -> JSON name; peerGuard.PremiumRate resolves through Setting.GetRate(peer,asset,op) and departs from it only on the nil/error edges; both mains hand the same premium.Setting value to the swap services and to peer-sync, and no other production code writes those slots.",
 		NotD: "Values of the configured rates and of the built-in table; bbolt durability and transaction semantics; injectivity of the key format for peer ids that contain the separator; int64 overflow of amount*ppm; that the advertised rate is still current when the peer uses it (rates can change between poll and request); the behaviour when peerGuard falls back to the built-in table on a store error (advertised default vs. refused swap — reported as a note).",
 		Run:  runC27,
 	})
@@ -1116,6 +1117,308 @@ func (e *c27Env) keyComponent(v ssa.Value, outer *ssa.Function, spec string) boo
 
 // ---- R2 ----------------------------------------------------------------------------------------
 
+// c27Expr is the arithmetic a function performs on (amount, ppm), over the
+// mathematical integers. Native int64 operators and the math/big vocabulary
+// (NewInt, Set*, Mul, Quo, Div, Rem, Mod, Add, Sub, Neg, QuoRem, DivMod, Int64)
+// build the same tree, so `int64(a)*p/1e6` and
+// `new(big.Int).Quo(new(big.Int).Mul(big.NewInt(a), big.NewInt(p)), big.NewInt(1e6)).Int64()`
+// are the same expression. quo/rem truncate toward zero (Go's / and %, big.Quo,
+// big.Rem); div/mod are Euclidean (big.Div, big.Mod).
+type c27Expr struct {
+	op   string // amt | ppm | const | mul | quo | div | rem | mod | add | sub | neg
+	k    *big.Int
+	a, b *c27Expr
+}
+
+func (x *c27Expr) String() string {
+	switch x.op {
+	case "amt":
+		return "amount"
+	case "ppm":
+		return "ppm"
+	case "const":
+		return x.k.String()
+	case "neg":
+		return "-(" + x.a.String() + ")"
+	}
+	sym := map[string]string{"mul": "*", "quo": " quo ", "div": " div ", "rem": " rem ", "mod": " mod ", "add": "+", "sub": "-"}[x.op]
+	return "(" + x.a.String() + sym + x.b.String() + ")"
+}
+
+// eval computes the expression for concrete inputs (nil on division by zero).
+func (x *c27Expr) eval(amt, ppm *big.Int) *big.Int {
+	switch x.op {
+	case "amt":
+		return new(big.Int).Set(amt)
+	case "ppm":
+		return new(big.Int).Set(ppm)
+	case "const":
+		return new(big.Int).Set(x.k)
+	case "neg":
+		a := x.a.eval(amt, ppm)
+		if a == nil {
+			return nil
+		}
+		return a.Neg(a)
+	}
+	a, b := x.a.eval(amt, ppm), x.b.eval(amt, ppm)
+	if a == nil || b == nil {
+		return nil
+	}
+	switch x.op {
+	case "mul":
+		return a.Mul(a, b)
+	case "add":
+		return a.Add(a, b)
+	case "sub":
+		return a.Sub(a, b)
+	}
+	if b.Sign() == 0 {
+		return nil
+	}
+	switch x.op {
+	case "quo":
+		return a.Quo(a, b)
+	case "div":
+		return a.Div(a, b)
+	case "rem":
+		return a.Rem(a, b)
+	case "mod":
+		return a.Mod(a, b)
+	}
+	return nil
+}
+
+// c27Arith builds expressions for the integer values of one function. big.Int
+// objects are mutable, so the calls of the block that holds them are replayed in
+// program order with one abstract state per object.
+type c27Arith struct {
+	e       *c27Env
+	fn      *ssa.Function
+	ints    map[ssa.Value]*c27Expr  // results of big.Int.Int64() at the time of the call
+	objs    map[ssa.Value]ssa.Value // *big.Int value -> the object it denotes
+	state   map[ssa.Value]*c27Expr  // object -> current value
+	unknown string
+}
+
+func (ar *c27Arith) fail(why string) *c27Expr {
+	if ar.unknown == "" {
+		ar.unknown = why
+	}
+	return nil
+}
+
+func c27IsInteger(t types.Type) bool {
+	b, ok := t.Underlying().(*types.Basic)
+	return ok && b.Info()&types.IsInteger != 0
+}
+
+func c27IsSigned(t types.Type) bool {
+	b, ok := t.Underlying().(*types.Basic)
+	return ok && b.Info()&types.IsInteger != 0 && b.Info()&types.IsUnsigned == 0
+}
+
+// intExpr: the expression of a native integer value.
+func (ar *c27Arith) intExpr(v ssa.Value, depth int) *c27Expr {
+	if depth > 12 {
+		return ar.fail("expression too deep")
+	}
+	if x, ok := ar.ints[v]; ok {
+		return x
+	}
+	switch x := v.(type) {
+	case *ssa.Const:
+		k, ok := an.ConstInt(x)
+		if !ok {
+			return ar.fail("non-integer constant " + x.String())
+		}
+		return &c27Expr{op: "const", k: big.NewInt(k)}
+	case *ssa.Parameter:
+		if ar.e.isParam(x, ar.fn, 1) {
+			return &c27Expr{op: "amt"}
+		}
+		return ar.fail("parameter " + x.Name() + " is not the amount")
+	case *ssa.ChangeType:
+		return ar.intExpr(x.X, depth+1)
+	case *ssa.Convert:
+		if !c27IsInteger(x.Type()) || !c27IsInteger(x.X.Type()) {
+			return ar.fail("conversion " + x.X.Type().String() + " -> " + x.Type().String())
+		}
+		in := ar.intExpr(x.X, depth+1)
+		if in == nil {
+			return nil
+		}
+		// only the amount itself may change signedness (uint64 -> int64, value preserving below 2^63)
+		if c27IsSigned(x.Type()) != c27IsSigned(x.X.Type()) && in.op != "amt" && in.op != "const" {
+			return ar.fail("signedness conversion of a computed value")
+		}
+		return in
+	case *ssa.UnOp:
+		switch x.Op {
+		case token.MUL:
+			fa, ok := x.X.(*ssa.FieldAddr)
+			if ok && an.FieldName(fa.X.Type(), fa.Field) == "PPM.ppmValue" && ar.e.isParam(fa.X, ar.fn, 0) {
+				return &c27Expr{op: "ppm"}
+			}
+			return ar.fail("load of " + ar.e.w.Term(x))
+		case token.SUB:
+			in := ar.intExpr(x.X, depth+1)
+			if in == nil {
+				return nil
+			}
+			return &c27Expr{op: "neg", a: in}
+		}
+	case *ssa.BinOp:
+		op := map[token.Token]string{token.MUL: "mul", token.QUO: "quo", token.REM: "rem", token.ADD: "add", token.SUB: "sub"}[x.Op]
+		if op == "" {
+			return ar.fail("operator " + x.Op.String())
+		}
+		if (op == "quo" || op == "rem") && !c27IsSigned(x.Type()) {
+			return ar.fail("unsigned division (a negative premium cannot be represented)")
+		}
+		l, r := ar.intExpr(x.X, depth+1), ar.intExpr(x.Y, depth+1)
+		if l == nil || r == nil {
+			return nil
+		}
+		return &c27Expr{op: op, a: l, b: r}
+	case *ssa.Call:
+		return ar.fail("result of " + ar.e.w.Info(x).Name)
+	}
+	return ar.fail(fmt.Sprintf("%T", v))
+}
+
+// obj: the big.Int object a *big.Int value denotes.
+func (ar *c27Arith) obj(v ssa.Value) ssa.Value {
+	if o, ok := ar.objs[v]; ok {
+		return o
+	}
+	if al, ok := v.(*ssa.Alloc); ok {
+		if n := an.NamedOf(al.Type()); n != nil && n.Obj().Name() == "Int" && n.Obj().Pkg() != nil && n.Obj().Pkg().Path() == "math/big" {
+			ar.objs[v] = v
+			ar.state[v] = &c27Expr{op: "const", k: big.NewInt(0)}
+			return v
+		}
+	}
+	ar.fail("a *big.Int of unknown origin: " + ar.e.w.Term(v))
+	return nil
+}
+
+func (ar *c27Arith) get(v ssa.Value) *c27Expr {
+	o := ar.obj(v)
+	if o == nil {
+		return nil
+	}
+	return ar.state[o]
+}
+
+// replay interprets the math/big calls of fn in program order.
+func (ar *c27Arith) replay() {
+	w := ar.e.w
+	var bigBlock *ssa.BasicBlock
+	for _, b := range ar.fn.Blocks {
+		for _, in := range b.Instrs {
+			call, ok := in.(*ssa.Call)
+			if !ok {
+				continue
+			}
+			name := w.Info(call).Name
+			if !strings.HasPrefix(name, "func:(*math/big.Int).") && !strings.HasPrefix(name, "func:math/big.") {
+				continue
+			}
+			if bigBlock != nil && bigBlock != b {
+				ar.fail("math/big operations spread over several blocks")
+				return
+			}
+			bigBlock = b
+			args := call.Call.Args
+			set := func(z ssa.Value, x *c27Expr) {
+				o := ar.obj(z)
+				if o == nil || x == nil {
+					ar.fail("cannot evaluate " + name)
+					return
+				}
+				ar.state[o] = x
+				ar.objs[call] = o
+			}
+			bin := func(op string) {
+				if len(args) != 3 {
+					ar.fail("unexpected arity of " + name)
+					return
+				}
+				x, y := ar.get(args[1]), ar.get(args[2])
+				if x == nil || y == nil {
+					ar.fail("cannot evaluate an operand of " + name)
+					return
+				}
+				set(args[0], &c27Expr{op: op, a: x, b: y})
+			}
+			switch strings.TrimPrefix(strings.TrimPrefix(name, "func:(*math/big.Int)."), "func:math/big.") {
+			case "NewInt":
+				x := ar.intExpr(args[0], 0)
+				if x == nil {
+					return
+				}
+				ar.objs[call] = call
+				ar.state[call] = x
+			case "SetInt64", "SetUint64":
+				set(args[0], ar.intExpr(args[1], 0))
+			case "Set":
+				set(args[0], ar.get(args[1]))
+			case "Mul":
+				bin("mul")
+			case "Quo":
+				bin("quo")
+			case "Div":
+				bin("div")
+			case "Rem":
+				bin("rem")
+			case "Mod":
+				bin("mod")
+			case "Add":
+				bin("add")
+			case "Sub":
+				bin("sub")
+			case "Neg":
+				if x := ar.get(args[1]); x != nil {
+					set(args[0], &c27Expr{op: "neg", a: x})
+				}
+			case "QuoRem", "DivMod":
+				if len(args) != 4 {
+					ar.fail("unexpected arity of " + name)
+					return
+				}
+				x, y := ar.get(args[1]), ar.get(args[2])
+				if x == nil || y == nil || ar.obj(args[3]) == nil {
+					ar.fail("cannot evaluate an operand of " + name)
+					return
+				}
+				q, r := "quo", "rem"
+				if strings.HasSuffix(name, "DivMod") {
+					q, r = "div", "mod"
+				}
+				ar.state[ar.obj(args[3])] = &c27Expr{op: r, a: x, b: y}
+				set(args[0], &c27Expr{op: q, a: x, b: y})
+			case "Int64":
+				if x := ar.get(args[0]); x != nil {
+					ar.ints[call] = x
+				}
+			default:
+				ar.fail("math/big operation " + name + " is outside the vocabulary of the rule")
+			}
+			if ar.unknown != "" {
+				return
+			}
+		}
+	}
+}
+
+// c27Witnesses are the inputs the computed expression is compared on with the
+// reference  trunc(amount * ppm / 10^6).  The first one is a negative rate whose
+// product is not a multiple of 10^6 (truncation and floor differ there).
+var c27Witnesses = [][2]int64{
+	{123457, -1500}, {1, -1}, {999999, -1}, {1000000, 2000}, {999999, 1}, {0, 5}, {123456789, -999999}, {7, 1000000}, {1500000, 333333}, {21000000_00000000, 10000},
+}
+
 func (e *c27Env) r2() {
 	c, w := e.c, e.w
 	fn := e.fn("premium", "(*PPM).Compute")
@@ -1125,104 +1428,52 @@ func (e *c27Env) r2() {
 	name := w.FuncName(fn)
 	rets := an.Returns(fn)
 	c.AtLeast("C27.R2", "returns of PPM.Compute", len(rets), 1)
+	million := big.NewInt(1_000_000)
 	for _, r := range rets {
 		pos := w.Pos(r.Pos())
 		if len(r.Results) != 1 {
 			c.Unknown("C27.R2", name, pos, "unexpected result arity")
 			continue
 		}
-		v := r.Results[0]
-		// only integer arithmetic over params / the ppm field / constants is decided
-		if why := e.r2Pure(v, 0); why != "" {
-			c.Unknown("C27.R2", name, pos, "result is not a pure integer expression ("+why+"): shape not supported")
+		ar := &c27Arith{e: e, fn: fn, ints: map[ssa.Value]*c27Expr{}, objs: map[ssa.Value]ssa.Value{}, state: map[ssa.Value]*c27Expr{}}
+		ar.replay()
+		var x *c27Expr
+		if ar.unknown == "" {
+			x = ar.intExpr(r.Results[0], 0)
+		}
+		if x == nil || ar.unknown != "" {
+			c.Unknown("C27.R2", name, pos, "the result is not an integer expression over (amount, ppm) in the native / math/big vocabulary of the rule: "+ar.unknown)
 			continue
 		}
-		q, ok := v.(*ssa.BinOp)
-		if !ok || q.Op != token.QUO {
-			c.Bad("C27.R2", name, pos, "the result is not a quotient: expected int64(amount)*ppm / 1_000_000, found "+w.Term(v))
-			continue
-		}
-		d, isC := an.ConstInt(q.Y)
-		if _, isConst := q.Y.(*ssa.Const); !isConst || !isC || d != 1_000_000 {
-			c.Bad("C27.R2", name, pos, "the divisor is not the constant 1_000_000 (parts per million): "+w.Term(q.Y))
-			continue
-		}
-		if b, ok := q.Type().Underlying().(*types.Basic); !ok || b.Kind() != types.Int64 {
-			c.Bad("C27.R2", name, pos, "the division is not performed in int64 (truncation toward zero on signed values): "+q.Type().String())
-			continue
-		}
-		m, ok := q.X.(*ssa.BinOp)
-		if !ok || m.Op != token.MUL {
-			c.Bad("C27.R2", name, pos, "the dividend is not the product amount*ppm: "+w.Term(q.X))
-			continue
-		}
-		isAmt := func(x ssa.Value) bool {
-			if cv, ok := x.(*ssa.Convert); ok {
-				x = cv.X
+		// compare with the reference on the witnesses
+		bad := ""
+		for _, wt := range c27Witnesses {
+			a, p := big.NewInt(wt[0]), big.NewInt(wt[1])
+			want := new(big.Int).Mul(a, p)
+			want.Quo(want, million)
+			got := x.eval(a, p)
+			if got == nil {
+				bad = fmt.Sprintf("amount=%d, rate=%d ppm: division by zero", wt[0], wt[1])
+				break
 			}
-			_, isP := x.(*ssa.Parameter)
-			return isP && e.isParam(x, fn, 1)
-		}
-		isPpm := func(x ssa.Value) bool {
-			ld, ok := x.(*ssa.UnOp)
-			if !ok || ld.Op != token.MUL {
-				return false
+			if got.Cmp(want) != 0 {
+				bad = fmt.Sprintf("amount=%d sat, rate=%d ppm: the code computes %s = %s, the premium is %s (amount*rate/10^6 truncated toward zero)", wt[0], wt[1], x, got, want)
+				break
 			}
-			fa, ok := ld.X.(*ssa.FieldAddr)
-			if !ok || an.FieldName(fa.X.Type(), fa.Field) != "PPM.ppmValue" {
-				return false
-			}
-			return e.isParam(fa.X, fn, 0)
 		}
-		if (isAmt(m.X) && isPpm(m.Y)) || (isAmt(m.Y) && isPpm(m.X)) {
-			c.OK("C27.R2", name, pos, "int64(amtSat) * p.ppmValue / 1000000 (int64 Quo)")
+		if bad != "" {
+			c.Bad("C27.R2", name, pos, "the premium is not trunc(amount*ppm/1_000_000): "+bad)
+			continue
+		}
+		isLeaf := func(y *c27Expr, op string) bool { return y != nil && y.op == op }
+		canonical := x.op == "quo" && isLeaf(x.b, "const") && x.b.k.Cmp(million) == 0 && isLeaf(x.a, "mul") &&
+			((isLeaf(x.a.a, "amt") && isLeaf(x.a.b, "ppm")) || (isLeaf(x.a.a, "ppm") && isLeaf(x.a.b, "amt")))
+		if canonical {
+			c.OK("C27.R2", name, pos, "computes "+x.String()+" with a truncating quotient")
 		} else {
-			c.Bad("C27.R2", name, pos, "the product is not int64(amount parameter) * receiver.ppmValue: "+w.Term(m))
+			c.Unknown("C27.R2", name, pos, "the expression "+x.String()+" agrees with trunc(amount*ppm/10^6) on the witnesses but is not the form the rule can prove equal")
 		}
 	}
-}
-
-// r2Pure returns "" when v is built only from integer BinOps, conversions
-// between integer types, parameters, loads of struct fields and constants.
-func (e *c27Env) r2Pure(v ssa.Value, depth int) string {
-	if depth > 10 {
-		return "too deep"
-	}
-	isInt := func(t types.Type) bool {
-		b, ok := t.Underlying().(*types.Basic)
-		return ok && b.Info()&types.IsInteger != 0
-	}
-	switch x := v.(type) {
-	case *ssa.Const:
-		return ""
-	case *ssa.Parameter:
-		return ""
-	case *ssa.BinOp:
-		if !isInt(x.Type()) {
-			return "non-integer operator " + x.Op.String()
-		}
-		if s := e.r2Pure(x.X, depth+1); s != "" {
-			return s
-		}
-		return e.r2Pure(x.Y, depth+1)
-	case *ssa.Convert:
-		if !isInt(x.Type()) || !isInt(x.X.Type()) {
-			return "conversion " + x.X.Type().String() + " -> " + x.Type().String()
-		}
-		return e.r2Pure(x.X, depth+1)
-	case *ssa.ChangeType:
-		return e.r2Pure(x.X, depth+1)
-	case *ssa.UnOp:
-		if x.Op == token.MUL {
-			if _, ok := x.X.(*ssa.FieldAddr); ok {
-				return ""
-			}
-		}
-		if x.Op == token.SUB {
-			return e.r2Pure(x.X, depth+1)
-		}
-	}
-	return fmt.Sprintf("%T", v)
 }
 
 // ---- R3 charging ----------------------------------------------------------------------------------
